@@ -840,3 +840,422 @@ Proof.
   cbn zeta. intros Q. pose proof (conservation l) as C. cbn zeta in C.
   rewrite (in_flight_quiescent _ Q), app_nil_r in C. exact C.
 Qed.
+
+(* ------------------------------------------------------------------ *)
+(* what one step of a routing goroutine is, in a state satisfying inv  *)
+
+Inductive rstep (s : cst) (k : nat) : cst -> Prop :=
+| rs_idle :
+    (nth_error (routers s) k = None \/ exists t, nth_error (routers s) k = Some t /\ r_pc t = RDone) ->
+    rstep s k s
+| rs_miss t :
+    nth_error (routers s) k = Some t -> r_pc t = RStart -> lookup (fst (r_iq t)) (table s) = None ->
+    rstep s k (set_pc s k ROrd)
+| rs_hit t c ch :
+    nth_error (routers s) k = Some t -> r_pc t = RStart -> lookup (fst (r_iq t)) (table s) = Some c ->
+    nth_error (chans s) c = Some ch -> c_owner ch = fst (r_iq t) -> fresh_ch ch ->
+    rstep s k (set_pc (set_table s (remove_id (fst (r_iq t)) (table s))) k
+                 (if c_done ch then RCloseOrd c else RSend c))
+| rs_send t c ch :
+    nth_error (routers s) k = Some t -> r_pc t = RSend c -> nth_error (chans s) c = Some ch ->
+    c_owner ch = fst (r_iq t) -> fresh_ch ch ->
+    rstep s k (set_pc (set_chans s (upd (chans s) c (put_ch (r_iq t)))) k (RClose c))
+| rs_close t c ch :
+    nth_error (routers s) k = Some t -> r_pc t = RClose c -> nth_error (chans s) c = Some ch ->
+    c_closed ch = false ->
+    rstep s k (set_pc (set_chans s (upd (chans s) c close_ch)) k RDone)
+| rs_closeord t c ch :
+    nth_error (routers s) k = Some t -> r_pc t = RCloseOrd c -> nth_error (chans s) c = Some ch ->
+    c_closed ch = false ->
+    rstep s k (set_pc (set_chans s (upd (chans s) c close_ch)) k ROrd)
+| rs_ord t :
+    nth_error (routers s) k = Some t -> r_pc t = ROrd ->
+    rstep s k (set_pc (add_ordinary s (r_iq t)) k RDone).
+
+Lemma router_step_spec s k : inv s -> rstep s k (router_step s k).
+Proof.
+  intros I. destruct (nth_error (routers s) k) as [t|] eqn:Hk;
+    [|rewrite router_step_none by exact Hk; apply rs_idle; left; exact Hk].
+  pose proof I as (P & T & N & U & O & H & C).
+  destruct (r_pc t) as [|c|c|c| |] eqn:Hpc.
+  - destruct (lookup (fst (r_iq t)) (table s)) as [c|] eqn:Hl.
+    + apply lookup_In in Hl as Hin. destruct (T _ _ Hin) as (ch & E1 & E2 & E3).
+      rewrite (router_step_start_hit s k t c ch Hk Hpc Hl E1). apply (rs_hit s k t c ch); assumption.
+    + rewrite (router_step_start_miss s k t Hk Hpc Hl). apply (rs_miss s k t); assumption.
+  - assert (Hh : held_by t = Some c) by (unfold held_by; rewrite Hpc; reflexivity).
+    destruct (H _ _ _ Hk Hh) as (ch & E1 & Eo & Ec & Eb). rewrite Hpc in Eb. destruct Eb as [Eb Eg].
+    rewrite (router_step_send s k t c ch Hk Hpc E1 Ec Eb). apply (rs_send s k t c ch); try assumption.
+    unfold fresh_ch. auto.
+  - assert (Hh : held_by t = Some c) by (unfold held_by; rewrite Hpc; reflexivity).
+    destruct (H _ _ _ Hk Hh) as (ch & E1 & Eo & Ec & Eb).
+    rewrite (router_step_close s k t c ch Hk Hpc E1 Ec). apply (rs_close s k t c ch); assumption.
+  - assert (Hh : held_by t = Some c) by (unfold held_by; rewrite Hpc; reflexivity).
+    destruct (H _ _ _ Hk Hh) as (ch & E1 & Eo & Ec & Eb).
+    rewrite (router_step_closeord s k t c ch Hk Hpc E1 Ec). apply (rs_closeord s k t c ch); assumption.
+  - rewrite (router_step_ord s k t Hk Hpc). apply (rs_ord s k t); assumption.
+  - rewrite (router_step_done s k t Hk Hpc). apply rs_idle. right. exists t. auto.
+Qed.
+
+(* ------------------------------------------------------------------ *)
+(* a response to a pending request; a response racing with cancellation *)
+
+Lemma c_run_cons s a l : c_run s (a :: l) = c_run (c_step s a) l.
+Proof. reflexivity. Qed.
+Lemma c_run_nil s : c_run s [] = s.
+Proof. reflexivity. Qed.
+Lemma step_router_eq s k : c_step s (ARouter k) = router_step s k.
+Proof. reflexivity. Qed.
+
+Lemma early_response s i v c ch :
+  inv s -> lookup i (table s) = Some c -> nth_error (chans s) c = Some ch -> c_done ch = false ->
+  let k := length (routers s) in
+  let s' := c_run s [AArrive (i, v); ARouter k; ARouter k; ARouter k] in
+  nth_error (chans s') c = Some (close_ch (put_ch (i, v) ch)) /\
+  (forall d, d <> c -> nth_error (chans s') d = nth_error (chans s) d) /\
+  table s' = remove_id i (table s) /\ ordinary s' = ordinary s /\
+  nth_error (routers s') k = Some {| r_iq := (i, v); r_pc := RDone |}.
+Proof.
+  intros I Hl Hc Hd k s'. subst s'. rewrite !c_run_cons, c_run_nil, !step_router_eq.
+  pose proof I as (P & T & N & U & O & H & C).
+  destruct (T _ _ (lookup_In _ _ _ Hl)) as (ch0 & E0 & Eo & Ecl & Eb & Eg).
+  assert (ch0 = ch) by congruence. subst ch0.
+  set (s1 := c_step s (AArrive (i, v))).
+  set (t1 := {| r_iq := (i, v); r_pc := RStart |}).
+  assert (K1 : nth_error (routers s1) k = Some t1) by apply nth_error_snoc_new.
+  assert (S2 : router_step s1 k = set_pc (set_table s1 (remove_id i (table s))) k (RSend c)).
+  { rewrite (router_step_start_hit s1 k t1 c ch K1 eq_refl Hl Hc). rewrite Hd. reflexivity. }
+  rewrite S2. set (s2 := set_pc _ k (RSend c)).
+  assert (K2 : nth_error (routers s2) k = Some (with_pc (RSend c) t1)).
+  { unfold s2. rewrite set_pc_routers. apply nth_error_upd_same. exact K1. }
+  assert (S3 : router_step s2 k = set_pc (set_chans s2 (upd (chans s) c (put_ch (i, v)))) k (RClose c)).
+  { exact (router_step_send s2 k _ c ch K2 eq_refl Hc Ecl Eb). }
+  rewrite S3. set (s3 := set_pc _ k (RClose c)).
+  assert (K3 : nth_error (routers s3) k = Some (with_pc (RClose c) (with_pc (RSend c) t1))).
+  { unfold s3. rewrite set_pc_routers. apply nth_error_upd_same. exact K2. }
+  assert (C3 : chans s3 = upd (chans s) c (put_ch (i, v))) by reflexivity.
+  assert (C3' : nth_error (chans s3) c = Some (put_ch (i, v) ch)).
+  { rewrite C3. apply nth_error_upd_same. exact Hc. }
+  assert (S4 : router_step s3 k = set_pc (set_chans s3 (upd (chans s3) c close_ch)) k RDone).
+  { exact (router_step_close s3 k _ c _ K3 eq_refl C3' eq_refl). }
+  rewrite S4. set (s4 := set_pc _ k RDone).
+  assert (C4 : chans s4 = upd (chans s3) c close_ch) by reflexivity.
+  split; [rewrite C4; apply nth_error_upd_same; exact C3'|].
+  split; [intros d Nd; rewrite C4, nth_error_upd_other, C3, nth_error_upd_other by exact Nd; reflexivity|].
+  split; [reflexivity|]. split; [reflexivity|].
+  unfold s4. rewrite set_pc_routers. cbn [set_chans routers].
+  rewrite (nth_error_upd_same _ _ _ _ K3). reflexivity.
+Qed.
+
+(* the context had ended when the entry was taken: the channel is closed empty, the
+   response goes to the ordinary routes, once *)
+Lemma cancelled_response s i v c ch :
+  inv s -> lookup i (table s) = Some c -> nth_error (chans s) c = Some ch -> c_done ch = true ->
+  let k := length (routers s) in
+  let s' := c_run s [AArrive (i, v); ARouter k; ARouter k; ARouter k] in
+  nth_error (chans s') c = Some (close_ch ch) /\
+  (forall d, d <> c -> nth_error (chans s') d = nth_error (chans s) d) /\
+  table s' = remove_id i (table s) /\ ordinary s' = ordinary s ++ [(i, v)] /\
+  nth_error (routers s') k = Some {| r_iq := (i, v); r_pc := RDone |}.
+Proof.
+  intros I Hl Hc Hd k s'. subst s'. rewrite !c_run_cons, c_run_nil, !step_router_eq.
+  pose proof I as (P & T & N & U & O & H & C).
+  destruct (T _ _ (lookup_In _ _ _ Hl)) as (ch0 & E0 & Eo & Ecl & Eb & Eg).
+  assert (ch0 = ch) by congruence. subst ch0.
+  set (s1 := c_step s (AArrive (i, v))).
+  set (t1 := {| r_iq := (i, v); r_pc := RStart |}).
+  assert (K1 : nth_error (routers s1) k = Some t1) by apply nth_error_snoc_new.
+  assert (S2 : router_step s1 k = set_pc (set_table s1 (remove_id i (table s))) k (RCloseOrd c)).
+  { rewrite (router_step_start_hit s1 k t1 c ch K1 eq_refl Hl Hc). rewrite Hd. reflexivity. }
+  rewrite S2. set (s2 := set_pc _ k (RCloseOrd c)).
+  assert (K2 : nth_error (routers s2) k = Some (with_pc (RCloseOrd c) t1)).
+  { unfold s2. rewrite set_pc_routers. apply nth_error_upd_same. exact K1. }
+  assert (S3 : router_step s2 k = set_pc (set_chans s2 (upd (chans s) c close_ch)) k ROrd).
+  { exact (router_step_closeord s2 k _ c ch K2 eq_refl Hc Ecl). }
+  rewrite S3. set (s3 := set_pc _ k ROrd).
+  assert (K3 : nth_error (routers s3) k = Some (with_pc ROrd (with_pc (RCloseOrd c) t1))).
+  { unfold s3. rewrite set_pc_routers. apply nth_error_upd_same. exact K2. }
+  assert (C3 : chans s3 = upd (chans s) c close_ch) by reflexivity.
+  rewrite (router_step_ord s3 k _ K3 eq_refl). set (s4 := set_pc _ k RDone).
+  assert (C4 : chans s4 = chans s3) by reflexivity.
+  split; [rewrite C4, C3; apply nth_error_upd_same; exact Hc|].
+  split; [intros d Nd; rewrite C4, C3, nth_error_upd_other by exact Nd; reflexivity|].
+  split; [reflexivity|]. split; [reflexivity|].
+  unfold s4. rewrite set_pc_routers. cbn [add_ordinary routers].
+  rewrite (nth_error_upd_same _ _ _ _ K3). reflexivity.
+Qed.
+
+(* the entry is gone (removed by the canceller, already answered, never registered):
+   the response is routed like any other packet, no channel is touched *)
+Lemma unmatched_response s i v :
+  lookup i (table s) = None ->
+  let k := length (routers s) in
+  let s' := c_run s [AArrive (i, v); ARouter k; ARouter k] in
+  chans s' = chans s /\ table s' = table s /\ ordinary s' = ordinary s ++ [(i, v)] /\
+  nth_error (routers s') k = Some {| r_iq := (i, v); r_pc := RDone |}.
+Proof.
+  intros Hl k s'. subst s'. rewrite !c_run_cons, c_run_nil, !step_router_eq.
+  set (s1 := c_step s (AArrive (i, v))).
+  set (t1 := {| r_iq := (i, v); r_pc := RStart |}).
+  assert (K1 : nth_error (routers s1) k = Some t1) by apply nth_error_snoc_new.
+  rewrite (router_step_start_miss s1 k t1 K1 eq_refl Hl). set (s2 := set_pc s1 k ROrd).
+  assert (K2 : nth_error (routers s2) k = Some (with_pc ROrd t1)).
+  { unfold s2. rewrite set_pc_routers. apply nth_error_upd_same. exact K1. }
+  rewrite (router_step_ord s2 k _ K2 eq_refl).
+  split; [reflexivity|]. split; [reflexivity|]. split; [reflexivity|].
+  rewrite set_pc_routers. cbn [add_ordinary routers].
+  rewrite (nth_error_upd_same _ _ _ _ K2). reflexivity.
+Qed.
+
+(* ------------------------------------------------------------------ *)
+(* the pending entry stays until cancelled, unregistered, replaced or answered *)
+
+Definition pending (s : cst) (i : iqid) (c : nat) : Prop :=
+  lookup i (table s) = Some c /\ exists ch, nth_error (chans s) c = Some ch /\ c_done ch = false.
+
+(* the actions that can end the pending state of request (i, c) *)
+Definition touches (s : cst) (i : iqid) (c : nat) (a : act) : bool :=
+  match a with
+  | ARegister j => N.eqb j i                                 (* a clashing id replaces the entry *)
+  | AUnregister d | ACancelDelete d | ACancel d => Nat.eqb d c
+  | ARouter k =>                                             (* another response with this id is taken *)
+      match nth_error (routers s) k with
+      | Some t => match r_pc t with RStart => N.eqb (fst (r_iq t)) i | _ => false end
+      | None => false
+      end
+  | AArrive _ | ARecv _ => false
+  end.
+
+Fixpoint untouched (s : cst) (i : iqid) (c : nat) (l : list act) : bool :=
+  match l with
+  | [] => true
+  | a :: l' => negb (touches s i c a) && untouched (c_step s a) i c l'
+  end.
+
+Lemma done_upd (l : list chst) c d f ch :
+  nth_error l c = Some ch -> (forall x, c_done (f x) = c_done x) ->
+  exists ch', nth_error (upd l d f) c = Some ch' /\ c_done ch' = c_done ch.
+Proof.
+  intros Hc Hf. destruct (Nat.eq_dec c d) as [->|Ne].
+  - exists (f ch). split; [apply nth_error_upd_same; exact Hc|apply Hf].
+  - exists ch. split; [rewrite nth_error_upd_other by exact Ne; exact Hc|reflexivity].
+Qed.
+
+Lemma recv_done ch : c_done (recv_ch ch) = c_done ch.
+Proof. unfold recv_ch. destruct (c_buf ch); reflexivity. Qed.
+
+Lemma pending_step s i c a :
+  inv s -> pending s i c -> touches s i c a = false -> pending (c_step s a) i c.
+Proof.
+  intros I (Hl & ch & Hc & Hd) Ht. unfold pending.
+  destruct a as [j|d|r|k|d|d|d]; cbn [touches] in Ht.
+  - cbn [c_step table chans]. split.
+    + cbn [lookup]. rewrite N.eqb_sym, Ht. apply N.eqb_neq in Ht.
+      rewrite lookup_remove_id_other by congruence. exact Hl.
+    + exists ch. split; [apply nth_error_snoc_old; exact Hc|exact Hd].
+  - apply Nat.eqb_neq in Ht. cbn [c_step]. destruct (nth_error (chans s) d).
+    + cbn [set_table table chans]. split; [apply lookup_remove_chan_other; assumption|]. exists ch. auto.
+    + split; [exact Hl|]. exists ch. auto.
+  - cbn [c_step table chans]. split; [exact Hl|]. exists ch. auto.
+  - rewrite step_router_eq. destruct (router_step_spec s k I) as [Hi|t Hk Hpc Hm|t e ch0 Hk Hpc Hh E1 Eo Ef|t e ch0 Hk Hpc E1 Eo Ef|t e ch0 Hk Hpc E1 Ec|t e ch0 Hk Hpc E1 Ec|t Hk Hpc].
+    + split; [exact Hl|]. exists ch. auto.
+    + split; [exact Hl|]. exists ch. auto.
+    + rewrite Hk, Hpc in Ht. apply N.eqb_neq in Ht. cbn [set_pc set_routers set_table table chans]. split.
+      * rewrite lookup_remove_id_other by congruence. exact Hl.
+      * exists ch. auto.
+    + cbn [set_pc set_routers set_chans table chans]. split; [exact Hl|].
+      destruct (done_upd (chans s) c e (put_ch (r_iq t)) ch Hc) as (ch' & G1 & G2); [reflexivity|].
+      exists ch'. split; [exact G1|congruence].
+    + cbn [set_pc set_routers set_chans table chans]. split; [exact Hl|].
+      destruct (done_upd (chans s) c e close_ch ch Hc) as (ch' & G1 & G2); [reflexivity|].
+      exists ch'. split; [exact G1|congruence].
+    + cbn [set_pc set_routers set_chans table chans]. split; [exact Hl|].
+      destruct (done_upd (chans s) c e close_ch ch Hc) as (ch' & G1 & G2); [reflexivity|].
+      exists ch'. split; [exact G1|congruence].
+    + cbn [set_pc set_routers add_ordinary table chans]. split; [exact Hl|]. exists ch. auto.
+  - rewrite step_recv_eq. cbn [set_chans table chans]. split; [exact Hl|].
+    destruct (done_upd (chans s) c d recv_ch ch Hc recv_done) as (ch' & G1 & G2).
+    exists ch'. split; [exact G1|congruence].
+  - apply Nat.eqb_neq in Ht. rewrite step_cancel_eq. cbn [set_chans table chans]. split; [exact Hl|].
+    exists ch. split; [|exact Hd]. rewrite nth_error_upd_other by congruence. exact Hc.
+  - apply Nat.eqb_neq in Ht. cbn [c_step]. destruct (nth_error (chans s) d) as [ch0|].
+    + destruct (c_done ch0).
+      * cbn [set_table table chans]. split; [apply lookup_remove_chan_other; assumption|]. exists ch. auto.
+      * split; [exact Hl|]. exists ch. auto.
+    + split; [exact Hl|]. exists ch. auto.
+Qed.
+
+Lemma pending_run i c l : forall s,
+  inv s -> pending s i c -> untouched s i c l = true -> inv (c_run s l) /\ pending (c_run s l) i c.
+Proof.
+  induction l as [|a l IH]; intros s I Pn Hu; [split; assumption|].
+  cbn [untouched] in Hu. apply andb_true_iff in Hu as [Ha Hu]. apply negb_true_iff in Ha.
+  rewrite c_run_cons. apply IH; [apply inv_step; exact I|apply pending_step; assumption|exact Hu].
+Qed.
+
+Lemma register_pending s i : pending (c_step s (ARegister i)) i (length (chans s)).
+Proof.
+  unfold pending. cbn [c_step table chans lookup]. rewrite N.eqb_refl. split; [reflexivity|].
+  exists (new_chan i). split; [apply nth_error_snoc_new|reflexivity].
+Qed.
+
+(* SendIQ registers (then writes the request); whatever happens afterwards short of
+   cancellation / unregistration / a clashing registration / another answer being taken,
+   a response arriving at any later point is delivered on that channel, which is then closed *)
+Lemma early_response_any_time s0 i l v :
+  inv s0 ->
+  let c := length (chans s0) in
+  let s1 := c_step s0 (ARegister i) in
+  untouched s1 i c l = true ->
+  let s := c_run s1 l in
+  let k := length (routers s) in
+  let s' := c_run s [AArrive (i, v); ARouter k; ARouter k; ARouter k] in
+  exists ch', nth_error (chans s') c = Some ch' /\ c_owner ch' = i /\ c_closed ch' = true /\
+              c_buf ch' = Some (i, v) /\ c_got ch' = [] /\
+              lookup i (table s') = None /\ ordinary s' = ordinary s.
+Proof.
+  intros I0 c s1 Hu s k s'.
+  destruct (pending_run i c l s1 (inv_step _ _ I0) (register_pending s0 i) Hu) as (I & Hl & ch & Hc & Hd).
+  fold s in I, Hl, Hc.
+  destruct (early_response s i v c ch I Hl Hc Hd) as (G1 & _ & G3 & G4 & _).
+  fold k in G1, G3, G4. fold s' in G1, G3, G4.
+  destruct I as (_ & T & _). destruct (T _ _ (lookup_In _ _ _ Hl)) as (ch0 & E0 & Eo & _ & _ & Eg).
+  assert (ch0 = ch) by congruence. subst ch0.
+  exists (close_ch (put_ch (i, v) ch)). split; [exact G1|]. cbn [close_ch put_ch c_owner c_closed c_buf c_got].
+  split; [exact Eo|]. split; [reflexivity|]. split; [reflexivity|]. split; [exact Eg|].
+  split; [rewrite G3; apply lookup_remove_id_same|exact G4].
+Qed.
+
+(* ------------------------------------------------------------------ *)
+(* a closed channel is never written again                             *)
+
+Lemma closed_stable_step s a c ch :
+  inv s -> nth_error (chans s) c = Some ch -> c_closed ch = true ->
+  exists ch', nth_error (chans (c_step s a)) c = Some ch' /\ c_closed ch' = true /\
+              contents ch' = contents ch /\ c_owner ch' = c_owner ch.
+Proof.
+  intros I Hc Hcl.
+  assert (Same : chans (c_step s a) = chans s ->
+            exists ch', nth_error (chans (c_step s a)) c = Some ch' /\ c_closed ch' = true /\
+                        contents ch' = contents ch /\ c_owner ch' = c_owner ch).
+  { intros E. rewrite E. exists ch. auto. }
+  assert (Upd : forall d f, chans (c_step s a) = upd (chans s) d f ->
+            (d = c -> c_closed (f ch) = true /\ contents (f ch) = contents ch /\ c_owner (f ch) = c_owner ch) ->
+            exists ch', nth_error (chans (c_step s a)) c = Some ch' /\ c_closed ch' = true /\
+                        contents ch' = contents ch /\ c_owner ch' = c_owner ch).
+  { intros d f E Hf. rewrite E. destruct (Nat.eq_dec d c) as [->|Ne].
+    - exists (f ch). split; [apply nth_error_upd_same; exact Hc|]. apply Hf. reflexivity.
+    - exists ch. split; [rewrite nth_error_upd_other by congruence; exact Hc|auto]. }
+  destruct a as [j|d|r|k|d|d|d].
+  - cbn [c_step chans]. exists ch. split; [apply nth_error_snoc_old; exact Hc|auto].
+  - apply Same. cbn [c_step]. destruct (nth_error (chans s) d); reflexivity.
+  - apply Same. reflexivity.
+  - revert Same Upd. rewrite step_router_eq. intros Same Upd.
+    destruct (router_step_spec s k I) as [Hi|t Hk Hpc Hm|t e ch0 Hk Hpc Hh E1 Eo Ef|t e ch0 Hk Hpc E1 Eo Ef|t e ch0 Hk Hpc E1 Ec|t e ch0 Hk Hpc E1 Ec|t Hk Hpc];
+      try (apply Same; reflexivity).
+    + apply (Upd e (put_ch (r_iq t))); [reflexivity|]. intros ->. destruct Ef as (Ef & _). congruence.
+    + apply (Upd e close_ch); [reflexivity|]. intros ->. congruence.
+    + apply (Upd e close_ch); [reflexivity|]. intros ->. congruence.
+  - apply (Upd d recv_ch); [reflexivity|]. intros _. split; [|split; [apply contents_recv|]];
+      unfold recv_ch; destruct (c_buf ch); cbn; auto.
+  - apply (Upd d cancel_ch); [reflexivity|]. intros _. auto.
+  - apply Same. cbn [c_step]. destruct (nth_error (chans s) d) as [ch0|]; [destruct (c_done ch0)|]; reflexivity.
+Qed.
+
+Lemma closed_stable l : forall s c ch,
+  inv s -> nth_error (chans s) c = Some ch -> c_closed ch = true ->
+  exists ch', nth_error (chans (c_run s l)) c = Some ch' /\ c_closed ch' = true /\
+              contents ch' = contents ch /\ c_owner ch' = c_owner ch.
+Proof.
+  induction l as [|a l IH]; intros s c ch I Hc Hcl; [exists ch; auto|].
+  rewrite c_run_cons. destruct (closed_stable_step s a c ch I Hc Hcl) as (ch1 & G1 & G2 & G3 & G4).
+  destruct (IH _ c ch1 (inv_step _ _ I) G1 G2) as (ch2 & F1 & F2 & F3 & F4).
+  exists ch2. split; [exact F1|]. split; [exact F2|]. split; congruence.
+Qed.
+
+(* ------------------------------------------------------------------ *)
+(* the statements for every schedule from the initial state            *)
+
+Lemma reach_at_most_once l :
+  let s := c_run c_init l in
+  (forall c ch, nth_error (chans s) c = Some ch ->
+     length (c_got ch) + (match c_buf ch with Some _ => 1 | None => 0 end) <= 1) /\
+  (forall k t c ch, nth_error (routers s) k = Some t ->
+     r_pc t = RSend c \/ r_pc t = RClose c \/ r_pc t = RCloseOrd c ->
+     nth_error (chans s) c = Some ch -> c_closed ch = false).
+Proof. cbn zeta. apply inv_at_most_once. apply inv_reachable. Qed.
+
+Lemma reach_closed_final l l' c ch :
+  let s := c_run c_init l in
+  nth_error (chans s) c = Some ch -> c_closed ch = true ->
+  exists ch', nth_error (chans (c_run s l')) c = Some ch' /\ c_closed ch' = true /\
+              contents ch' = contents ch /\ c_owner ch' = c_owner ch.
+Proof. cbn zeta. apply closed_stable. apply inv_reachable. Qed.
+
+Lemma reach_right_owner l :
+  let s := c_run c_init l in
+  forall c ch v, nth_error (chans s) c = Some ch ->
+    (c_buf ch = Some v \/ In v (c_got ch)) -> fst v = c_owner ch.
+Proof. cbn zeta. apply inv_right_owner. apply inv_reachable. Qed.
+
+Lemma reach_never_blocks l k : blocked (c_run c_init l) k = false.
+Proof. apply inv_never_blocks. apply inv_reachable. Qed.
+
+Lemma reach_progress l k t :
+  let s := c_run c_init l in
+  nth_error (routers s) k = Some t ->
+  exists t', nth_error (routers (c_step s (ARouter k))) k = Some t' /\ r_iq t' = r_iq t /\
+             rank (r_pc t') <= pred (rank (r_pc t)).
+Proof. cbn zeta. apply router_progress. apply inv_reachable. Qed.
+
+Lemma reach_early_response l i v c :
+  let s := c_run c_init l in
+  lookup i (table s) = Some c ->
+  (forall ch, nth_error (chans s) c = Some ch -> c_done ch = false) ->
+  let k := length (routers s) in
+  let s' := c_run s [AArrive (i, v); ARouter k; ARouter k; ARouter k] in
+  (exists ch', nth_error (chans s') c = Some ch' /\ c_owner ch' = i /\ c_closed ch' = true /\
+               c_buf ch' = Some (i, v) /\ c_got ch' = []) /\
+  (forall d, d <> c -> nth_error (chans s') d = nth_error (chans s) d) /\
+  lookup i (table s') = None /\ ordinary s' = ordinary s /\
+  nth_error (routers s') k = Some {| r_iq := (i, v); r_pc := RDone |}.
+Proof.
+  intros s Hl Hd k s'. pose proof (inv_reachable l) as I. fold s in I.
+  pose proof I as (_ & T & _). destruct (T _ _ (lookup_In _ _ _ Hl)) as (ch & E0 & Eo & _ & _ & Eg).
+  destruct (early_response s i v c ch I Hl E0 (Hd _ E0)) as (G1 & G2 & G3 & G4 & G5).
+  fold k in G1, G2, G3, G4, G5. fold s' in G1, G2, G3, G4, G5.
+  split; [|split; [exact G2|split; [rewrite G3; apply lookup_remove_id_same|split; assumption]]].
+  exists (close_ch (put_ch (i, v) ch)). split; [exact G1|]. cbn [close_ch put_ch c_owner c_closed c_buf c_got]. auto.
+Qed.
+
+Lemma reach_early_response_any_time l0 i l v :
+  let s0 := c_run c_init l0 in
+  let c := length (chans s0) in
+  let s1 := c_step s0 (ARegister i) in
+  untouched s1 i c l = true ->
+  let s := c_run s1 l in
+  let k := length (routers s) in
+  let s' := c_run s [AArrive (i, v); ARouter k; ARouter k; ARouter k] in
+  exists ch', nth_error (chans s') c = Some ch' /\ c_owner ch' = i /\ c_closed ch' = true /\
+              c_buf ch' = Some (i, v) /\ c_got ch' = [] /\
+              lookup i (table s') = None /\ ordinary s' = ordinary s.
+Proof. cbn zeta. apply early_response_any_time. apply inv_reachable. Qed.
+
+Lemma reach_cancelled_response l i v c :
+  let s := c_run c_init l in
+  lookup i (table s) = Some c ->
+  (forall ch, nth_error (chans s) c = Some ch -> c_done ch = true) ->
+  let k := length (routers s) in
+  let s' := c_run s [AArrive (i, v); ARouter k; ARouter k; ARouter k] in
+  (exists ch', nth_error (chans s') c = Some ch' /\ c_closed ch' = true /\
+               c_buf ch' = None /\ c_got ch' = []) /\
+  (forall d, d <> c -> nth_error (chans s') d = nth_error (chans s) d) /\
+  lookup i (table s') = None /\ ordinary s' = ordinary s ++ [(i, v)] /\
+  nth_error (routers s') k = Some {| r_iq := (i, v); r_pc := RDone |}.
+Proof.
+  intros s Hl Hd k s'. pose proof (inv_reachable l) as I. fold s in I.
+  pose proof I as (_ & T & _). destruct (T _ _ (lookup_In _ _ _ Hl)) as (ch & E0 & Eo & _ & Eb & Eg).
+  destruct (cancelled_response s i v c ch I Hl E0 (Hd _ E0)) as (G1 & G2 & G3 & G4 & G5).
+  fold k in G1, G2, G3, G4, G5. fold s' in G1, G2, G3, G4, G5.
+  split; [|split; [exact G2|split; [rewrite G3; apply lookup_remove_id_same|split; assumption]]].
+  exists (close_ch ch). split; [exact G1|]. cbn [close_ch c_closed c_buf c_got]. auto.
+Qed.
